@@ -78,6 +78,17 @@ Definition last_nonzero (n : list N) : bool := negb (is0 (last n 0%N)).
 Definition wf_nalu (n : list N) : bool :=
   match n with [] => false | _ => true end && last_nonzero n && no_sc3 n && bytes_ok n.
 
+(* the unit length fits the 4-byte length field *)
+Definition fits32 (n : list N) : bool := Zlen n <? 4294967296.
+
+Definition sclen (four : bool) : Z := if four then 4 else 3.
+(* the (startCodeLength, startPos) list of `stream us` laid out from offset base *)
+Fixpoint expected_scs (base : Z) (us : list (bool * list N)) : list (Z * Z) :=
+  match us with
+  | [] => []
+  | (f, n) :: t => (sclen f, base + sclen f) :: expected_scs (base + sclen f + Zlen n) t
+  end.
+
 Definition wf_units (us : list (bool * list N)) : bool := forallb (fun u => wf_nalu (snd u)) us.
 Definition wf_nalus (ns : list (list N)) : bool := forallb wf_nalu ns.
 
